@@ -91,12 +91,55 @@ def value_for(ex, sym, i, d):
 LIST_ATTRS = {'targets'}
 
 
-def node_like(ex, label):
+_OPTIONAL = None
+
+
+def optional_attrs():
+    """attribute names that the parser code itself treats as optional: somewhere an action (or a helper in parser/utils.py) tests `<x>.name is None`,
+    `<x>.name is not None` or uses `<x>.name` as a condition. Only those may be None in the type contract of a nonterminal value."""
+    global _OPTIONAL
+    if _OPTIONAL is None:
+        names = set()
+        mods = ['mindsdb_sql.parser.utils'] + [lrtab.load(dn).parser_module for dn in lrtab.DIALECTS]
+        for mn in dict.fromkeys(mods):
+            try:
+                tree = repo.module_ast(mn)
+            except Exception:
+                continue
+            for n in ast.walk(tree):
+                tests = []
+                if isinstance(n, ast.Compare) and len(n.ops) == 1 and isinstance(n.ops[0], (ast.Is, ast.IsNot)) and isinstance(n.comparators[0], ast.Constant) and n.comparators[0].value is None:
+                    tests.append(n.left)
+                elif isinstance(n, (ast.If, ast.IfExp, ast.While)):
+                    tests.append(n.test)
+                elif isinstance(n, ast.UnaryOp) and isinstance(n.op, ast.Not):
+                    tests.append(n.operand)
+                elif isinstance(n, ast.BoolOp):
+                    tests.extend(n.values)
+                for t in tests:
+                    if isinstance(t, ast.Attribute):
+                        names.add(t.attr)
+                    elif isinstance(t, ast.Subscript) and isinstance(t.value, ast.Name):
+                        pass
+            # dict-of-attributes idiom of ensure_select_keyword_order: {'LIMIT': select.limit, ...} followed by `if table[op]`
+            for n in ast.walk(tree):
+                if isinstance(n, ast.Dict) and n.values and all(isinstance(v_, ast.Attribute) for v_ in n.values):
+                    names.update(v_.attr for v_ in n.values)
+        _OPTIONAL = names
+    return _OPTIONAL
+
+
+def node_like(ex, label, attribute=False):
     """value of a nonterminal whose type contract is 'some well-formed value of that rule': attributes, subscripts, calls of its
-    methods, iteration and operators are total and yield values of the same kind (the rule's own action is a separate obligation)"""
+    methods, iteration and operators are total and yield values of the same kind (the rule's own action is a separate obligation).
+    An ATTRIBUTE of such a value may be absent (None) or empty: its truth value is unknown (both outcomes are explored), so guards like
+    `if select.limit:` do not cut the rest of the action off"""
     v = SymObj(None, label, prov='param')
-    v.known_not_none = True
-    v.truth_known = True
+    # a clause attribute of a statement value may be None (`if select.offset is not None` must not cut the action off); attributes of
+    # attributes (parts of an identifier, value of a constant, ...) are present
+    v.known_not_none = not (attribute == 'first' and label.rsplit('.', 1)[-1] in optional_attrs())
+    v.truth_known = None if attribute else True
+    v.is_attr = bool(attribute)
     v.any_attr = True
     v.call_stub = lambda ex_, a, k: node_like(ex_, ex_.fresh_name(label + '()'))
     return v
@@ -112,7 +155,7 @@ def install_oracles(ex):
                 # type contract: these attributes of statement / expression nodes hold lists (of unknown length) of nodes
                 seq = SymSeq(ex_.fresh_name(f'{obj.label}.{attr}'), lambda e, l: node_like(e, l), prov='param')
                 return seq
-            return node_like(ex_, f'{obj.label}.{attr}')
+            return node_like(ex_, f'{obj.label}.{attr}', attribute='nested' if getattr(obj, 'is_attr', False) else 'first')
         return orig(ex_, obj, attr)
     ex.field_oracle = oracle
     gi = ex.method_stubs['__getitem__']
@@ -195,7 +238,12 @@ def action_verdict(d, K, fd, rule):
         return None
     ex = pysym.Executor(max_paths=1500)
     ex.atoms = {}          # regex matches / word-set membership / str predicates on symbolic strings are opaque facts: both outcomes are explored
-    return pysym.verify(K.__module__, None, make_args, post, ex=ex, node=fd)
+    v = pysym.verify(K.__module__, None, make_args, post, ex=ex, node=fd)
+    if v.status == PROVED and getattr(v, 'returns', 1) == 0 and any(isinstance(n, ast.Return) for n in ast.walk(fd)):
+        # vacuity guard: the action has a return statement but under the type contracts every explored path raises - the contracts cut the
+        # body off, nothing was proved about it
+        return pysym.Verdict(UNDECIDED, f'vacuous: none of the {v.paths} explored path(s) reaches a return statement (type contract too strong?)')
+    return v
 
 
 def all_actions(dname):
@@ -272,6 +320,7 @@ REPLAY_HINTS = {
     'kw_parameter': ['select 1'],
     'result_column': ["select 1 as ''", "select 1 ''", 'select 1 as ""', 'select 1 ""'],
     'from_table_aliased': ['select * from t as ""', 'select * from t ""'],
+    'select': ['SELECT a FROM t LIMIT 1.5, 2', "SELECT a FROM t LIMIT 10, 'x'", "select a from t limit 'x'", 'select a from t limit 1 offset 1.5', 'select a from t limit 1 limit 2', 'select a where b = 1'],
     'from_table': ['select * from (select a from t) as s(x, y)', 'select * from (select a, b from t) as s(x)', 'select * from (select a from t) as s(x, y, z)', 'select * from (select 1 union select 2) as s(x)'],
     'set': ['SET names x', 'SET x'],
 }
